@@ -206,6 +206,38 @@ def check(ctx, rep):
                 f"the cache is written through another file ({bad[0]}): a writer that is interrupted leaves a file under a name no listing ignores - "
                 "the directory then shows (and caches) an entry that is a cut-off cache" if bad else "", key=f"R11d|{m.qualname}")
 
+    # ---- R11f: a pickle cache counts as loaded only when the unpickler accepted the whole file
+    rep.rule("R11f", "a directory cache is used only after pickle.load() has read it: no path of the loader reports a hit with a listing it built "
+             "from the raw bytes itself (a length prefix, an 'empty' shortcut) - pickle's framing is what makes damaged files fail", floor=1)
+    dirbase = ctx.cls("handlers.dir.DirHandler")
+    for C in (prog.subclasses(dirbase) if dirbase else []):
+        lc = prog.resolve_method(C, "loadcache")
+        if lc is None or (lc.cls is not C and C is not dirbase):
+            continue
+        w = Walker(prog, ctx.resolver, fork_returns=True, inline_by_name=True,
+                   inline=lambda fn, t, d: d < 3 and fn.module.name.startswith("pygopherd.handlers") and fn.name not in ("open", "stat", "getfspath", "__init__")
+                   and (t.bound_cls is not None or fn.cls is None or fn.cls is C))
+        shortcuts, n_hit = [], 0
+        try:
+            lpaths = w.run(lc, C)
+        except Exception:
+            lpaths = []
+        for p in lpaths:
+            if p.kind == "raise":
+                continue
+            hit = (p.kind == "return" and truth(p.value) is True) or any(
+                e.kind == "assign" and e.target == "self.fromcache" and e.extra is not None and truth(e.extra) is True for e in p.events)
+            if not hit:
+                continue
+            n_hit += 1
+            if not any(e.kind == "call" and e.target.kind == "ext" and e.target.ext in ("pickle.load", "pickle.loads", "marshal.load") for e in p.events):
+                tests = [f"{norm(e.node)[:40]} is {bool(e.extra)}" for e in p.events if e.kind == "test" and e.extra is not None]
+                shortcuts.append(tests[-1] if tests else "unconditionally")
+        rep.add("R11f", f"{lc.qualname}: every hit went through the unpickler [{n_hit} hit paths]", n_hit > 0 and not shortcuts, ctx.where(lc),
+                "" if n_hit and not shortcuts else (f"a cache hit is reported without unpickling the file (when {shortcuts[0]}): a zero-filled or cut-off file "
+                                                    "that happens to satisfy that test is served as a listing" if shortcuts else "no path of the loader reports a hit"),
+                key=f"R11f|{lc.qualname}")
+
     sites = deser_sites(ctx, eff)
     done_c = set()
     for s, H in sites:
